@@ -26,8 +26,6 @@ pub struct Stringifier<'s, W: FmtWrite> {
     source_path: &'s str,
     scope_names: Vec<CompactString>,
     mangling: bool,
-    /// the text written next is directly followed by output that starts with `{`
-    pub(crate) followed_by_brace: bool,
 }
 
 impl<'s, W: FmtWrite> Stringifier<'s, W> {
@@ -43,7 +41,6 @@ impl<'s, W: FmtWrite> Stringifier<'s, W> {
             source_path,
             scope_names: vec![],
             mangling: false,
-            followed_by_brace: false,
         }
     }
 
